@@ -15,3 +15,7 @@ def main(tier, seed):
 
 RULE_EXTRA = 'wrapper stream: fmin/fmin_powell/diffev/diffev2 with full_output=1 (returned x evaluated, fval = cost+penalty).'
 TRUSTED_EXTRA = ['Powell: monitor only (line search not modelled)', 'ensembles: C09']
+
+
+def replay(path):
+    return solvercheck.replay(PID, path)
